@@ -1,7 +1,7 @@
 """C09 — registration bookkeeping reflects exactly the net effect of the history."""
 from . import regcommon
 
-THEOREMS = ["ZI.Lv.find_update", "ZI.Lv.find_remove", "ZI.Lv.remove_flag"]
+THEOREMS = ["ZI.Registry.find_update", "ZI.Registry.find_remove", "ZI.Registry.remove_flag", "ZI.Registry.kget_set", "ZI.Registry.kget_erase", "ZI.Lv.find_update", "ZI.Lv.find_remove"]
 PROFILE = dict(weights=[5, 2.5, 3, 1.5, 0.3, 0.7, 0.5], queries=["lookup", "lookupAll", "subs", "book"], nregs=(1, 2), extra_queries=1,
                arity=[0, 1, 1, 2, 2], steps=(8, 30))
 
